@@ -363,6 +363,23 @@ TVecKeys ==
          /\ E.kind = "product" => Wn \subseteq V
          /\ E.fixed = 0 => (E.trained = 1 <=> due)
 
+\* Persisted state of a text index (read from its bucket): the recorded corpus size, the document entries and
+\* the term sets are exactly what the stored documents determine -- one entry (node, length, term frequencies)
+\* per point whose field analyses to at least one token, one set per term that occurs, holding the nodes of the
+\* documents with that term.
+TTextIx ==
+  /\ IsEvent("TextIx") /\ Obs
+  /\ LET C   == Corpus(S, pts, E.p)
+         D   == {[n |-> nodeOf[i], len |-> IxOf(S, pts[i], E.p).len, tf |-> IxOf(S, pts[i], E.p).tf] : i \in C}
+         LD  == {[n |-> E.docs[k].n, len |-> E.docs[k].len, tf |-> E.docs[k].tf] : k \in DOMAIN E.docs}
+         T   == UNION {DOMAIN IxOf(S, pts[i], E.p).tf : i \in C}
+         ES  == {[t |-> t, ids |-> {nodeOf[i] : i \in {j \in C : t \in DOMAIN IxOf(S, pts[j], E.p).tf}}] : t \in T}
+         LS  == {[t |-> E.sets[k].t, ids |-> AsSet(E.sets[k].ids)] : k \in DOMAIN E.sets}
+     IN  /\ E.n = Cardinality(C)
+         /\ Len(E.docs) = Cardinality(LD) /\ LD = D
+         /\ Len(E.sets) = Cardinality(LS) /\ LS = ES
+         /\ \A k \in DOMAIN E.sets : NoDup(E.sets[k].ids)
+
 \* What-if trials (C07): the batch is tried on a copy of the database under an
 \* injected fault / kill; Fork saves the model state, Restore brings it back.
 TFork ==
@@ -441,7 +458,7 @@ TQuiet == IsEvent("Quiet") /\ Obs
 
 TraceNext ==
   \/ TReset \/ TFault \/ TInsert \/ TInsertRace \/ TWriteRace \/ TUpdate \/ TDelete \/ TFork \/ TRestore \/ TCrash
-  \/ TCount \/ TGet \/ TFilter \/ TFlat \/ TVamana \/ TVamanaPair \/ TFlatPair \/ TCSearch \/ TErrKnown \/ TErrKnownStale \/ TText \/ TTextRepeat \/ TGraph \/ TVecKeys \/ TQuiet
+  \/ TCount \/ TGet \/ TFilter \/ TFlat \/ TVamana \/ TVamanaPair \/ TFlatPair \/ TCSearch \/ TErrKnown \/ TErrKnownStale \/ TText \/ TTextRepeat \/ TGraph \/ TVecKeys \/ TTextIx \/ TQuiet
 
 TraceSpec == TraceInit /\ [][TraceNext]_vars
 
